@@ -37,6 +37,14 @@ AUDITED = [
      "both copies are between slices of equal length: data (8 bytes) <- bytes[..8], data[..bytes.len()] <- bytes with bytes.len() <= 8"),
     (r"::(LFUPolicy|AsyncLFUPolicy)::add$", "std-op", r"Vec::drain\(\w+, .*RangeFrom",
      "drain(new_len..) with new_len = sample.len() - 1 <= len (the sample is non-empty here, see the index entry)"),
+    (r"^bbloom::Bloom::new$", "sub", r"get_size\(.*\)\.size - 1$|^64 - bbloom::get_size\(.*\)\.exp$",
+     "get_size yields size = 2^exp with 9 <= exp <= 63 (R14.5): size - 1 and 64 - exp do not underflow"),
+    (r"CacheProcessor::track_admission", "sub", r"num_to_keep - 1$",
+     "num_to_keep is the constant 100000 passed by finalize"),
+    (r"^histogram::Histogram::percentile$|^<histogram::Histogram as std::fmt::Display>::fmt$", "sub", r"^Vec::len\(self\.(bounds|count_per_bucket)\) - 1$|\.0\.0 - 1$",
+     "bounds has HISTOGRAM_BOUND_SIZE (16) entries and count_per_bucket one more; the enumerate index is decremented only on the `idx > 0` side (Display) "),
+    (r"::(LFUPolicy|AsyncLFUPolicy)::add$", "sub", r"^Vec::len\(\w+\) - 1$",
+     "the sample is non-empty here (see the index entry)"),
     (r"^<TransparentHasher as std::hash::Hasher>::write$", "index", r"bytes|data",
      "bytes[..8] is taken only when bytes.len() > 8, data[..bytes.len()] only when bytes.len() <= 8"),
 ]
@@ -88,6 +96,41 @@ def interval_max(body, e, facts, depth=0):
             src = it.source
             if src[0] == "agg" and src[2].endswith("Range::Range") and src[3][1][0] == "const" and isinstance(src[3][1][1], int):
                 return src[3][1][1] - 1
+    return None
+
+
+def _unsigned_operand(b, t):
+    a = t.get("a", {})
+    ty = None
+    if a.get("k") in ("copy", "move"):
+        l = b.locals[a["pl"]["l"]]
+        ty = l["ty"] if not a["pl"]["p"] else None
+    elif a.get("k") == "const":
+        ty = a.get("ty")
+    if ty is None:
+        bb_ = t.get("b", {})
+        if bb_.get("k") == "const":
+            ty = bb_.get("ty")
+    return ty in ("usize", "u64", "u32", "u16", "u8", "u128")
+
+
+def interval_min(body, e, facts, depth=0):
+    """Lower bound of a non-negative integer expression, or None."""
+    e = norm(e)
+    if e[0] == "const" and isinstance(e[1], int):
+        return e[1]
+    if e[0] == "cast":
+        return interval_min(body, e[2], facts, depth + 1)
+    if is_call(e, "next_power_of_two"):
+        return 1
+    if e[0] == "bin" and e[1] in ("Add", "Mul"):
+        a, b_ = interval_min(body, e[2], facts, depth + 1), interval_min(body, e[3], facts, depth + 1)
+        if a is not None and b_ is not None:
+            return a + b_ if e[1] == "Add" else a * b_
+    if e[0] == "var" and depth < 4:
+        ex = norm(body.expand(e))
+        if ex != e:
+            return interval_min(body, ex, facts, depth + 1)
     return None
 
 
@@ -176,6 +219,37 @@ def check_panic_sites(rep, fl, rule="R20.2"):
         desc = ""
         if in_dep:
             cls = "dependency-macro-internal"
+        elif kind == "assert:overflow" and str(t.get("op", "")).startswith("Sub") and _unsigned_operand(b, t):
+            # an unsigned subtraction: panics in overflow-checked builds and wraps to a huge value otherwise
+            # (a never-reached threshold, an out-of-range index): it has to be shown not to underflow
+            av = norm(b.operand_expr(t["a"], True))
+            bv = norm(b.operand_expr(t["b"], True))
+            desc = "%s - %s" % (show(av), show(bv))
+            kind = "sub"
+            am = interval_min(b, av, facts)
+            bm = interval_max(b, bv, facts)
+            if am is not None and bm is not None and am >= bm:
+                cls = "minuend >= %d >= subtrahend" % bm
+            else:
+                sts = None
+                at_, _e = dataflow(b)
+                sts = [expand_state(b, s_, hist=True) for s_ in at_.get((bi, term_idx(b, bi)), set())]
+                # guarded by `b < a` / `!(a < b)` / `a > b` on the same operands
+                def guarded(s_):
+                    for x, v in s_.lits:
+                        if x[0] == "bin" and x[1] == "Lt":
+                            l_, r_ = strip_casts(x[2]), strip_casts(x[3])
+                            if v and l_ == strip_casts(bv) and r_ == strip_casts(av):
+                                return True
+                            if v is False and l_ == strip_casts(av) and r_ == strip_casts(bv):
+                                return True
+                        if x[0] == "variant" and is_call(x[1], "Ord::cmp") and v:
+                            a0, a1 = strip_casts(norm(x[1][2][0])), strip_casts(norm(x[1][2][1]))
+                            if (x[2] == "Greater" and mentions(av, a0) and mentions(av, a1)) or (x[2] == "Greater" and a0 == strip_casts(av) and a1 == strip_casts(bv)):
+                                return True
+                    return False
+                if sts and all(guarded(s_) for s_ in sts):
+                    cls = "guarded by a comparison of the same operands"
         elif kind == "assert:overflow":
             cls = "overflow-check(debug builds only)"
         elif kind in ("assert:div_zero", "assert:rem_zero"):
@@ -248,7 +322,7 @@ def check_panic_sites(rep, fl, rule="R20.2"):
         if cls is None:
             # audited table
             for fre, k2, ore, why in AUDITED:
-                if re.search(fre, b.spath) and (k2 == kind or (k2 == "index" and kind == "index") or (k2 == "unwrap" and kind == "unwrap") or (k2 == "panic" and kind == "panic") or (k2 == "std-op" and kind == "std-op")) and re.search(ore, desc):
+                if re.search(fre, b.spath) and (k2 == kind or (k2 == "index" and kind == "index") or (k2 == "unwrap" and kind == "unwrap") or (k2 == "panic" and kind == "panic") or (k2 == "std-op" and kind == "std-op") or (k2 == "sub" and kind == "sub")) and re.search(ore, desc):
                     cls = "audited: " + why
                     break
         site = "%s %s" % (kind, desc[:90])
